@@ -57,7 +57,7 @@ def _ops(keys, values, cid=None):
     ops += [('len',), ('keys',), ('values',), ('items',), ('iter',), ('popitem',), ('clear',), ('copy',), ('copy_named',), ('eq',), ('eq_none',),
             ('update', ((keys[0], values[2]), (keys[-1], values[4]))), ('update_kw',),
             ('popkeys', (keys[0], keys[1])), ('popkeys', (keys[0], keys[1]), 'dflt'),
-            ('popkeys', (keys[0], keys[1], keys[0])), ('popkeys', (keys[0], keys[0]), 'dflt'), ('views_live',), ('eq_memory',)]
+            ('popkeys', (keys[0], keys[1], keys[0])), ('popkeys', (keys[0], keys[0]), 'dflt'), ('views_live',), ('eq_memory',), ('update_only_kw',), ('update_nothing',)]
     return ops
 
 
@@ -105,6 +105,12 @@ def apply_model(m, op):
             return None, m
         if name == 'update_kw':
             m.update({}, kwk='kwv')
+            return None, m
+        if name == 'update_only_kw':
+            m.update(kwk='kwv')
+            return None, m
+        if name == 'update_nothing':
+            m.update()
             return None, m
         if name == 'popkeys':
             ks = op[1]
@@ -248,6 +254,10 @@ def apply_real(a, op, ctx):
         return a.update(dict(op[1]))
     if name == 'update_kw':
         return a.update({}, kwk='kwv')
+    if name == 'update_only_kw':
+        return a.update(kwk='kwv')
+    if name == 'update_nothing':
+        return a.update()
     if name == 'popkeys':
         return a.popkeys(list(op[1]), *op[2:])
     raise ValueError(op)
@@ -256,7 +266,7 @@ def apply_real(a, op, ctx):
 def run_op(a, model, op, ctx):
     """perform op on the real archive and on the model -> list of violated clauses"""
     exp, m2 = apply_model(model, op)
-    if ctx['cid'] == 'null' and op[0] in ('setitem', 'setdefault', 'update', 'update_kw', 'setitem_bad'):
+    if ctx['cid'] == 'null' and op[0] in ('setitem', 'setdefault', 'update', 'update_kw', 'update_only_kw', 'update_nothing', 'setitem_bad'):
         m2 = {}           # the null archive discards every write
         if op[0] == 'setdefault':
             exp = op[2]
